@@ -27,6 +27,13 @@ use serial_ref::*;
 use std::str::FromStr;
 use verif_harness::common::*;
 
+thread_local! {
+    static RT: tokio::runtime::Runtime = tokio::runtime::Builder::new_current_thread()
+        .enable_all()
+        .build()
+        .expect("runtime");
+}
+
 /// The serial of an SOA record after a wire round trip.
 fn soa_serial_via_wire(x: u32) -> Serial {
     let mname = Name::<Vec<u8>>::from_str("ns.example.").unwrap();
@@ -171,6 +178,12 @@ fn cmp_case(k: u32, a: u64, b: u64) -> Value {
             "rrsig": ord_str(re.partial_cmp(&ri)),
             "sign": sign_decision(aa, bb),
             "diff": if aa.wrapping_sub(bb) == 0x8000_0000 { "any" } else { diff_decision(aa, bb) },
+            // IXFR request of a client at serial aa to a server at serial bb
+            "ixfr": if aa.wrapping_sub(bb) == 0x8000_0000 {
+                "any".to_string()
+            } else {
+                RT.with(|rt| ixfr_decision(rt, aa, bb))
+            },
             "newserial": lib_new_cmp(aa, bb),
             "ref": ref_cmp(32, aa as u64, bb as u64),
             "refk": ref_cmp(k, a, b),
